@@ -4,6 +4,7 @@ Properties run in parallel (one process each), changes of one property sequentia
 import glob, json, os, re, subprocess, sys
 from concurrent.futures import ThreadPoolExecutor
 V = "/verif"
+PREFIX = os.environ.get("ATK_PREFIX", "atk-")
 
 def guess(dirp):
     readme = open(os.path.join(dirp, "README.md")).read() if os.path.exists(os.path.join(dirp, "README.md")) else ""
@@ -24,14 +25,14 @@ def guess(dirp):
 
 def one(prop, suffix):
     low = prop.lower()
-    wt = "/tmp/atk-%s" % low
+    wt = "/tmp/%s%s" % (PREFIX, low)
     head = subprocess.run(["git", "-C", "/repo", "rev-parse", "HEAD"], capture_output=True, text=True).stdout.strip()
     subprocess.run(["git", "-C", wt, "reset", "-q", "--hard"])
     subprocess.run(["git", "-C", wt, "checkout", "-q", "--detach", head])
     out = []
     existing = [int(os.path.basename(d).split("-")[1]) for d in glob.glob(os.path.join(V, "seeded", prop + "-*"))]
     n = max(existing or [0])
-    for d in sorted(glob.glob("/tmp/atk-%s-out%s/[0-9]*" % (low, suffix))):
+    for d in sorted(glob.glob("/tmp/%s%s-out%s/[0-9]*" % (PREFIX, low, suffix))):
         if not os.path.exists(os.path.join(d, "patch.diff")) or not os.path.exists(os.path.join(d, "demo_test.go")):
             continue
         n += 1
